@@ -2,6 +2,7 @@ import Tuc.Model.CutStr
 import Tuc.Model.FastLane
 import Tuc.Lemmas.Run
 import Tuc.Lemmas.Bounds
+import Tuc.Lemmas.FastScan
 /-!
 # C02 — the one-byte fast path is indistinguishable from the general path
 
@@ -144,5 +145,155 @@ theorem outputParts_eq_outputBof (line : Bytes) (b : UserBounds) (starts : List 
 /-- non-vacuity: `a-bc` with delimiter `-`: starts `[0,2,5]` describe ranges `[0,1) [2,4)` -/
 example : StartsDescribe [0, 2, 5] [⟨0, 1⟩, ⟨2, 4⟩] :=
   .cons ⟨0, 1⟩ (.last ⟨2, 4⟩)
+
+/-! ## The scan of the fast path against the splitter of the general path -/
+
+/-- start offsets `prev, i₁+1, …, iₘ+1, n+1` describe the ranges between the matches `i₁ … iₘ` -/
+theorem startsDescribe_full (n : Nat) : ∀ (ms : List Nat) (prev : Nat),
+    StartsDescribe (prev :: ms.map (· + 1) ++ [n + 1]) (rangesBetween 1 n prev ms) := by
+  intro ms
+  induction ms with
+  | nil => intro prev; exact .last ⟨prev, n⟩
+  | cons i t ih => intro prev; exact .cons ⟨prev, i⟩ (ih (i + 1))
+
+/-- the first `k + 1` start offsets describe the first `k` ranges -/
+theorem startsDescribe_take (n : Nat) : ∀ (ms : List Nat) (prev k : Nat), 1 ≤ k → k ≤ ms.length →
+    StartsDescribe (prev :: (ms.take k).map (· + 1)) ((rangesBetween 1 n prev ms).take k) := by
+  intro ms
+  induction ms with
+  | nil => intro prev k h1 h2; simp at h2; omega
+  | cons i t ih =>
+    intro prev k h1 h2
+    obtain ⟨k', rfl⟩ : ∃ k', k = k' + 1 := ⟨k - 1, by omega⟩
+    by_cases hk : k' = 0
+    · subst hk
+      exact .last ⟨prev, i⟩
+    · simp only [List.take_succ_cons, List.map_cons, rangesBetween]
+      exact .cons ⟨prev, i⟩ (ih (i + 1) k' (by omega) (by simpa using h2))
+
+/-- **Item 2 (no early stop).**  When the early-stop field is not one of the delimiters of the
+    record (`.cont`, an index `≤ 0`, or an index past the last delimiter), the scan visits every
+    delimiter: with the fake end appended, the start offsets describe exactly the fields the
+    general splitter finds, and `curr_field` ends as the number of fields minus one. -/
+theorem fastScan_full (d : UInt8) (lif : Side) (line : Bytes) (hline : line ≠ [])
+    (hno : ∀ j : Nat, 1 ≤ j → j < (fillWithFieldsLocations [] line [d]).length → lif ≠ .some j) :
+    StartsDescribe (0 :: (fastScan d lif 0 0 line).1 ++ [line.length + 1])
+      (fillWithFieldsLocations [] line [d]) ∧
+    (fastScan d lif 0 0 line).2 = ((fillWithFieldsLocations [] line [d]).length : Int) - 1 := by
+  rw [fill_single d line hline, rangesBetween_length] at hno ⊢
+  have h := fastScan_noStop d lif line 0 0 (by
+    intro j h1 h2
+    simpa using hno j h1 (by omega))
+  rw [h]
+  refine ⟨startsDescribe_full _ _ _, ?_⟩
+  simp only
+  omega
+
+/-- **Item 3 (early stop).**  When the early-stop field `k` is one of the delimiters of the record
+    (`1 ≤ k ≤` number of delimiters `=` number of fields `- 1`), the scan stops right after the
+    `k`-th delimiter: `0 :: pushed` has exactly `k + 1` entries, they describe exactly the first
+    `k` fields of the general splitter (the `(k+1)`-th start is the fake end of field `k`), and
+    `curr_field` ends as `k`. -/
+theorem fastScan_earlyStop (d : UInt8) (line : Bytes) (hline : line ≠ []) (k : Nat) (hk1 : 1 ≤ k)
+    (hk : k < (fillWithFieldsLocations [] line [d]).length) :
+    (0 :: (fastScan d (.some k) 0 0 line).1).length = k + 1 ∧
+    StartsDescribe (0 :: (fastScan d (.some k) 0 0 line).1)
+      ((fillWithFieldsLocations [] line [d]).take k) ∧
+    (fastScan d (.some k) 0 0 line).2 = k := by
+  rw [fill_single d line hline, rangesBetween_length] at hk
+  rw [fill_single d line hline]
+  have h := fastScan_stop d line 0 0 k hk1 (by omega)
+  simp only [Int.zero_add] at h
+  rw [h]
+  refine ⟨?_, startsDescribe_take _ _ _ _ hk1 (by omega), rfl⟩
+  simp only [List.length_cons, List.length_map, List.length_take]
+  omega
+
+/-- `a-b-c-d`, delimiter `-`, early stop at field 2: the scan pushes the starts of fields 2 and 3
+    and stops; `[0, 2, 4]` describes exactly the first two fields `[0,1) [2,3)`. -/
+example : fastScan 45 (.some 2) 0 0 [97, 45, 98, 45, 99, 45, 100] = ([2, 4], 2) := by decide
+example : (fillWithFieldsLocations [] [97, 45, 98, 45, 99, 45, 100] [45]).take 2
+    = [⟨0, 1⟩, ⟨2, 3⟩] := by decide
+example : StartsDescribe (0 :: (fastScan 45 (.some 2) 0 0 [97, 45, 98, 45, 99, 45, 100]).1)
+    ((fillWithFieldsLocations [] [97, 45, 98, 45, 99, 45, 100] [45]).take 2) :=
+  (fastScan_earlyStop 45 _ (by decide) 2 (by decide) (by decide)).2.1
+/-- without the early stop the same record gives all four fields plus the fake end -/
+example : fastScan 45 .cont 0 0 [97, 45, 98, 45, 99, 45, 100] = ([2, 4, 6], 3) := by decide
+
+/-! ## The output loops -/
+
+theorem fastOutputLoop_eq (line : Bytes) (starts : List Nat) (ranges : List Range) (n : Nat)
+    (o : Opt) (fo : FastOpt) (cw : Bool) : ∀ (list : List BoF),
+    (∀ b, BoF.bound b ∈ list →
+      outputParts line b starts fo = outputBof line ranges n o cw (.bound b)) →
+    fastOutputLoop line starts fo list = outputLoop line ranges n o cw list := by
+  intro list
+  induction list with
+  | nil => intro _; rfl
+  | cons x t ih =>
+    intro h
+    have iht := ih (fun b hb => h b (by simp [hb]))
+    cases x with
+    | filler f => simp only [fastOutputLoop, outputLoop, outputBof, iht]
+    | bound b => simp only [fastOutputLoop, outputLoop, iht, h b (by simp)]
+
+/-- a bound that lies within the first `k` fields prints the same from the first `k` ranges as
+    from all of them -/
+theorem outputBof_take (line : Bytes) (ranges : List Range) (k : Nat) (hk : k ≤ ranges.length)
+    (o : Opt) (cw : Bool) (b : UserBounds) (hw : b.Within k) :
+    outputBof line (ranges.take k) k o cw (.bound b) =
+      outputBof line ranges ranges.length o cw (.bound b) := by
+  have hz : b.l ≠ .some 0 := by
+    rcases hw.1 with h | ⟨u, h, hu⟩
+    · rw [h]; simp
+    · rw [h]; simp only [ne_eq, Side.some.injEq]; omega
+  unfold outputBof
+  simp only [← earlyStop_sound b k ranges.length hw hk]
+  cases hr : b.tryIntoRange k with
+  | none => rfl
+  | some p =>
+    obtain ⟨s, e⟩ := p
+    have hb := tryIntoRange_bounds b k s e hz hr
+    have h1 : (ranges.take k)[s]? = ranges[s]? := by
+      rw [List.getElem?_take]; simp; omega
+    have h2 : (ranges.take k)[e - 1]? = ranges[e - 1]? := by
+      rw [List.getElem?_take]; simp; omega
+    simp only [h1, h2]
+
+/-! ## One record -/
+
+/-- what the general path does on an invocation that qualifies for the fast path: trim, split on
+    the one byte, `-s`, output loop, eol — every other pass is switched off -/
+theorem cutStrCore_fast (line : Bytes) (o : Opt) (fo : FastOpt) (ho : fastOptOf o = some fo)
+    (eol : Bytes) :
+    (cutStrCore line o eol).1 =
+      (let buf := match o.trim with
+        | some k => trimLiteral line k [fo.delimiter]
+        | none => line
+      if buf.isEmpty then (if !o.onlyDelimited then Run.ok eol else Run.empty)
+      else
+        let fields := fillWithFieldsLocations [] buf [fo.delimiter]
+        if o.onlyDelimited && fields.length == 1 then Run.empty
+        else (outputLoop buf fields fields.length o false o.bounds.list).seq (Run.ok eol)) := by
+  obtain ⟨hdel, _, _, _, _, _, _⟩ := fastOptOf_fields o fo ho
+  obtain ⟨_, hcompl, hgreedy, hcompress, hjson, hbt, hrepl, hre⟩ :=
+    (fastOptOf_isSome_iff o).1 (by rw [ho]; rfl)
+  have hre' : o.regexBag = none := by
+    cases h : o.regexBag with
+    | none => rfl
+    | some _ => rw [h] at hre; simp at hre
+  simp only [cutStrCore, emitRecord, hre', hcompl, hgreedy, hcompress, hjson, hbt, hrepl, hdel]
+  cases o.trim with
+  | none =>
+    simp only
+    by_cases hb : line.isEmpty = true
+    · simp [hb]
+    · simp [hb]
+  | some k =>
+    simp only
+    generalize trimLiteral line k [fo.delimiter] = buf
+    by_cases hb : buf.isEmpty = true
+    · simp [hb]
+    · simp [hb]
 
 end Tuc
